@@ -6,6 +6,7 @@ Exit-code contract of every check (see DESIGN.md section 6):
      `VIOLATION property=<id> replay=<path>` is printed
   2  machinery failure (TLC crash, evaluator != TLC, vacuity guard) - never a verdict
 """
+import collections
 import json
 import os
 import re
@@ -155,7 +156,7 @@ def tla_value(v):
 
 
 def run_tlc(module, cfg_path, name, workers=None, timeout=1500, env=None, extra=(), dump=None, coverage=False,
-            simulate=None, depth=None, tlc_seed=None, deque=False, ok_rcs=(0,)):
+            simulate=None, depth=None, tlc_seed=None, deque=False, ok_rcs=(0,), tolerate_eval_errors=False):
     """Run TLC on spec/<module>.tla in a scratch metadir under .work/.  Returns TlcResult."""
     wd = os.path.join(WORK, "tlc_" + name)
     shutil.rmtree(wd, ignore_errors=True)
@@ -188,7 +189,11 @@ def run_tlc(module, cfg_path, name, workers=None, timeout=1500, env=None, extra=
     # TLC leaves *_TTrace / states dirs only in metadir; nothing else to clean.
     if p.returncode == 124:
         raise MachineryError("TLC timed out after %ss on %s" % (timeout, module))
-    if ("Parsing or semantic analysis failed" in p.stdout or "Error: TLC threw an unexpected exception" in p.stdout
+    if "Parsing or semantic analysis failed" in p.stdout:
+        raise MachineryError("TLC failed on %s:\n%s" % (module, p.stdout[-3000:]))
+    if tolerate_eval_errors:
+        return res          # trace validation: a logged state TLC cannot evaluate is decided by the caller
+    if ("Error: TLC threw an unexpected exception" in p.stdout
             or "java.lang." in p.stdout and "Exception" in p.stdout and res.violated is None and not res.ok):
         raise MachineryError("TLC failed on %s:\n%s" % (module, p.stdout[-3000:]))
     return res
@@ -489,6 +494,37 @@ class Check:
         with open(os.path.join(evid, self.prop + ".json"), "w") as f:
             json.dump(ev, f, indent=1, default=str)
         return 1 if self.violations else 0
+
+
+def validate_traces(module, cfg, traces, name, timeout=2400):
+    """Run a trace specification over `traces` (one initial state per trace, progress printed as <<"AT", tid, l>>).
+    Returns (reached: tid -> last matched position, crashed: set of tids on which TLC itself failed).  A logged state that TLC
+    cannot even evaluate (e.g. an index table whose rows have the wrong width) makes TLC stop; the traces are then validated
+    one by one so that the others are still decided, and the unreadable one is reported by the caller as rejected."""
+    def one(trs, nm, workers):
+        tf = os.path.join(WORK, nm + ".json")
+        with open(tf, "w") as f:
+            json.dump(trs, f)
+        res = run_tlc(module, cfg, nm, workers=workers, timeout=timeout, env={"TRACE_FILE": tf}, tolerate_eval_errors=True)
+        reached = collections.Counter()
+        for line in res.printed("AT"):
+            m = re.match(r'<<"AT", (\d+), (\d+)>>', line)
+            reached[int(m.group(1))] = max(reached[int(m.group(1))], int(m.group(2)))
+        return res, reached
+    res, reached = one(traces, name, NCPU)
+    if res.ok:
+        return reached, set()
+    if "Parsing or semantic analysis failed" in res.out or "Cannot find source file" in res.out:
+        raise MachineryError("trace validation failed to run:\n" + res.out[-2000:])
+    reached, crashed = collections.Counter(), set()
+    for t, tr in enumerate(traces, start=1):
+        r1, got = one([tr], "%s_single" % name, 1)
+        reached[t] = got.get(1, 0)
+        if not r1.ok:
+            if "Parsing or semantic analysis failed" in r1.out:
+                raise MachineryError("trace validation failed to run:\n" + r1.out[-2000:])
+            crashed.add(t)
+    return reached, crashed
 
 
 def run_workers(module, jobs, nproc=None, env=None, timeout=3000):
